@@ -21,6 +21,7 @@
 #include <ksi/verification.h>
 #include <ksi/signature_builder.h>
 #include <ksi/blocksigner.h>
+#include <ksi/pkitruststore.h>
 #include <ksi/impl/net_async_impl.h>
 #include <sys/socket.h>
 #include <sys/ioctl.h>
@@ -248,6 +249,16 @@ int main(void) {
 			printf("R hmac rc=0x%x", rc);
 			if (rc == KSI_OK) { const unsigned char *imp; size_t il; KSI_DataHash_getImprint(h, &imp, &il); printf(" imprint="); hx_print(imp, il); }
 			printf("\n"); KSI_DataHash_free(h); KSI_CTX_free(c2); free(k); free(d); free(ks);
+		} else if (!strcmp(tok[0], "PUBCFG")) {
+			/* PUBCFG <caPem|-> <pubfilePath|-> [<oid> <valHex>]... : trust store (exactly that CA file), default constraints and a file:// publications URL for the current context */
+			KSI_PKITruststore *pki = NULL; int rc = KSI_PKITruststore_new(ctx, 0, &pki); int k, nc = (n - 3) / 2; KSI_CertConstraint *arr = H_CALLOC((size_t)nc + 1, sizeof(*arr)); char url[600];
+			if (rc == KSI_OK && strcmp(tok[1], "-")) rc = KSI_PKITruststore_addLookupFile(pki, tok[1]);
+			if (rc == KSI_OK) { rc = KSI_CTX_setPKITruststore(ctx, pki); if (rc != KSI_OK) KSI_PKITruststore_free(pki); } else KSI_PKITruststore_free(pki);
+			for (k = 0; k < nc; k++) { size_t l; unsigned char *v = hx_dec(tok[4 + 2 * k], &l); char *sv = H_MALLOC(l + 1); memcpy(sv, v, l); sv[l] = 0; free(v); arr[k].oid = tok[3 + 2 * k]; arr[k].val = sv; }
+			if (rc == KSI_OK) rc = KSI_CTX_setDefaultPubFileCertConstraints(ctx, arr);
+			for (k = 0; k < nc; k++) free(arr[k].val); free(arr);
+			if (rc == KSI_OK && strcmp(tok[2], "-")) { snprintf(url, sizeof(url), "file://%s", tok[2]); rc = KSI_CTX_setPublicationUrl(ctx, url); }
+			printf("R pubcfg rc=0x%x\n", rc);
 		} else if (!strcmp(tok[0], "VERIFY")) {
 			/* VERIFY <policy> <sigHex> <userPubTime:imprintHex|-> <pubfileHex|-> <extendingAllowed 0|1> [<docHex|-> [<level|->]]   (blocking context from BNEW; the extender is endpoint 1) */
 			size_t sl = 0, pl = 0; unsigned char *sb = tok[2][0] == '@' ? NULL : hx_dec(tok[2], &sl), *pb = NULL; KSI_Signature *sig = NULL; KSI_PublicationsFile *pf = NULL; KSI_PublicationData *up = NULL;
